@@ -65,8 +65,10 @@ def r0(ctx: Ctx) -> None:
     ok = bool(wh) and "is not None" in txt and "-1" in txt and "not in" in txt
     ctx.ob("C15.R0", f, "walk continues while the parent is a removed snapshot", wh[0] if wh else None, ok,
            f"loop conditions: {[b.text for b in tests][:5]}")
-    step = [n for n in inside if n.kind == "stmt" and isinstance(n.ast, ast.Assign) and "parent_of" in norm_text(n.ast.value)]
-    src = [n for n in g.nodes if n.kind == "stmt" and isinstance(n.ast, ast.Assign) and norm_text(n.ast.targets[0]) == "parent_of"]
+    src = [n for n in g.nodes if n.kind == "stmt" and isinstance(n.ast, ast.Assign) and isinstance(n.ast.value, ast.DictComp)
+           and "parent_snapshot_id" in norm_text(n.ast.value)]
+    mapname = norm_text(src[0].ast.targets[0]) if src else "?"  # type: ignore[union-attr]
+    step = [n for n in inside if n.kind == "stmt" and isinstance(n.ast, ast.Assign) and mapname in norm_text(n.ast.value)]
     ok = bool(step) and bool(src) and f.params[0].name in norm_text(src[0].ast.value)  # type: ignore[union-attr]
     ctx.ob("C15.R0", f, "ancestry is read from the PRE-removal list", src[0] if src else None, ok,
            "parent_of is built from the first argument (all snapshots before removal)")
@@ -163,16 +165,28 @@ def r1(ctx: Ctx) -> None:
     ret = sites["retention"]
     assert ret is not None
     g = ctx.cfg(ret)
-    app = [n for n in g.calls() if isinstance(n.ast, ast.Call) and isinstance(n.ast.func, ast.Attribute)
-           and n.ast.func.attr == "append" and norm_text(n.ast.func.value) == "kept"]
-    brs = [b for b in g.nodes if b.kind == "branch" and "current_id" in b.text and "not in" in b.text]
     dom = ctx.dom(ret, NORMAL)
-    ok = bool(app) and bool(brs) and any(b.id in dom[a.id] for a in app for b in brs)
-    surv = [n for n in g.nodes if n.kind == "stmt" and isinstance(n.ast, ast.Assign) and norm_text(n.ast.targets[0]) == "surviving"]
-    ok = ok and bool(surv) and "kept_ids" in norm_text(surv[0].ast.value) and \
-        any(isinstance(n.ast, ast.Call) and isinstance(n.ast.func, ast.Attribute) and n.ast.func.attr == "add" and "kept_ids" in norm_text(n.ast.func.value) for n in g.calls())  # type: ignore[union-attr]
-    ctx.ob("C15.R1", ret, "retention: the current snapshot is re-added to the kept set", app[0] if app else None, ok,
-           "kept.append(current) and kept_ids.add(current_id) under `current_id not in kept_ids`", text="retention-current")
+    # role: the list that is re-extended with the current snapshot under "<current id> not in <ids>"
+    brs = [b for b in g.nodes if b.kind == "branch" and isinstance(b.ast, ast.Compare) and isinstance(b.ast.ops[0], ast.NotIn)
+           and any("current_snapshot_id" in norm_text(g.nodes[d].ast) for nm in names_in(b.ast.left) for d in ctx.rd(ret).reaching(b.id, nm)
+                   if g.nodes[d].ast is not None)]
+    app = [n for n in g.calls() if isinstance(n.ast, ast.Call) and isinstance(n.ast.func, ast.Attribute)
+           and n.ast.func.attr == "append" and any(b.id in dom[n.id] for b in brs)]
+    idsets = {norm_text(b.ast.comparators[0]) for b in brs}
+    adds = [n for n in g.calls() if isinstance(n.ast, ast.Call) and isinstance(n.ast.func, ast.Attribute) and n.ast.func.attr == "add"
+            and norm_text(n.ast.func.value) in idsets and any(b.id in dom[n.id] for b in brs)]
+    ok = bool(app) and bool(brs) and bool(adds)
+    # the surviving list is filtered by that id set
+    rem = _snap_assign(ctx, ret)
+    surv_ok = False
+    for r in rem:
+        if isinstance(r.ast, ast.Assign) and isinstance(r.ast.value, ast.Name):
+            for d in ctx.rd(ret).reaching(r.id, r.ast.value.id):
+                if any(i in norm_text(g.nodes[d].ast) for i in idsets):
+                    surv_ok = True
+    ctx.ob("C15.R1", ret, "retention: the current snapshot is re-added to the kept set", app[0] if app else None, ok and surv_ok,
+           "kept.append(current) and kept_ids.add(current_id) under `current_id not in kept_ids`; survivors are filtered by that set",
+           text="retention-current")
     dl = sites["delete_snapshot"]
     assert dl is not None
     g = ctx.cfg(dl)
@@ -186,6 +200,24 @@ def r2(ctx: Ctx) -> None:
     ctx.rule("C15.R2", "sequence numbers come from the validated base: the only definitions are base.last_sequence_number + 1 and "
              "max(base.last_sequence_number, sequence_number)", 3)
     n_seq = 0
+    # (i) the local handed to create_snapshot(sequence_number=...) in _commit_file_ops; (ii) the parameter's None-default in
+    # create_snapshot; (iii) every assignment to <metadata>.last_sequence_number in the package
+    cf = ctx.fn("transaction.Transaction._commit_file_ops")
+    cs = ctx.calls(cf, name="create_snapshot")
+    seq_vars = []
+    if cs and isinstance(kwarg(cs[0].ast, "sequence_number"), ast.Name):
+        seq_vars.append((cf, kwarg(cs[0].ast, "sequence_number").id))  # type: ignore[union-attr]
+    seq_vars.append((ctx.fn("snapshot_manager.SnapshotManager.create_snapshot"), "sequence_number"))
+    for f, var in seq_vars:
+        for n in ctx.cfg(f).nodes:
+            if n.kind == "stmt" and isinstance(n.ast, ast.Assign) and any(isinstance(t, ast.Name) and t.id == var for t in n.ast.targets):
+                n_seq += 1
+                v = n.ast.value
+                ok = isinstance(v, ast.BinOp) and isinstance(v.op, ast.Add) and norm_text(v.left).endswith(".last_sequence_number") \
+                    and "base" in norm_text(v.left) and isinstance(v.right, ast.Constant) and v.right.value == 1
+                ctx.ob("C15.R2", f, "sequence number = base_metadata.last_sequence_number + 1", n, ok,
+                       "derived from the base the OCC commit validates against (strictly increasing in commit order); a value cached "
+                       "across retry attempts would repeat the number of the commit that won the race")
     for f in ctx.prog.functions.values():
         if isinstance(f.node, ast.Lambda):
             continue
@@ -193,18 +225,11 @@ def r2(ctx: Ctx) -> None:
             if n.kind != "stmt" or not isinstance(n.ast, ast.Assign):
                 continue
             for t in n.ast.targets:
-                if isinstance(t, ast.Name) and t.id == "sequence_number" and f.module.short in ("transaction", "snapshot_manager"):
-                    n_seq += 1
-                    v = n.ast.value
-                    ok = isinstance(v, ast.BinOp) and isinstance(v.op, ast.Add) and norm_text(v.left).endswith("base_metadata.last_sequence_number") \
-                        and isinstance(v.right, ast.Constant) and v.right.value == 1
-                    ctx.ob("C15.R2", f, "sequence_number = base_metadata.last_sequence_number + 1", n, ok,
-                           "derived from the base the OCC commit validates against (strictly increasing in commit order)")
                 if isinstance(t, ast.Attribute) and t.attr == "last_sequence_number":
                     n_seq += 1
                     v = n.ast.value
                     ok = isinstance(v, ast.Call) and (dotted(v.func) or "") == "max" and any("last_sequence_number" in norm_text(a) for a in v.args) \
-                        and any(norm_text(a) == "sequence_number" for a in v.args)
+                        and len(v.args) == 2
                     ctx.ob("C15.R2", f, "last_sequence_number = max(base, sequence_number)", n, ok,
                            "the table's last sequence number never decreases and bounds every snapshot's number")
     sn = ctx.fn("snapshot_manager.SnapshotManager.create_snapshot")
@@ -226,24 +251,36 @@ def r3(ctx: Ctx) -> None:
     b = brs[0]
     t_added, t_exist = edge_target(g, b, "true"), edge_target(g, b, "false")
     join_stop = [n.id for n in g.nodes if n.kind == "branch" and n.id != b.id]
-    for var, added_src, exist_src in (("entry_snapshot_id", ("snapshot_id",), "added_snapshot_id"),
-                                      ("entry_sequence_number", ("sequence_number",), "sequence_number")):
+    # role: the per-entry variables are the ones stored under 'snapshot_id' / 'sequence_number' in the entry record
+    dicts0 = [d for d in ast.walk(f.node) if isinstance(d, ast.Dict) and any(isinstance(k, ast.Constant) and k.value == "snapshot_id" for k in d.keys)]
+    entry_vars: Dict[str, str] = {}
+    if dicts0:
+        for k, v in zip(dicts0[0].keys, dicts0[0].values):
+            if isinstance(k, ast.Constant) and k.value in ("snapshot_id", "sequence_number") and isinstance(v, ast.Name):
+                entry_vars[str(k.value)] = v.id
+    pnames = {p.name for p in f.params}
+    for key, exist_src in (("snapshot_id", "added_snapshot_id"), ("sequence_number", "sequence_number")):
+        var = entry_vars.get(key)
         for edge, role in ((t_added, "ADDED"), (t_exist, "EXISTING")):
-            if edge is None:
+            if edge is None or var is None:
+                ctx.ob("C15.R3", f, f"{role}: per-entry {key} variable", b, False, "entry record no longer stores a per-entry variable", text=f"{role}:{key}")
                 continue
             reach = reachable_from(g, edge, NORMAL, avoid=join_stop) | {edge}
             defs = [g.nodes[x] for x in reach if g.nodes[x].kind == "stmt" and isinstance(g.nodes[x].ast, (ast.Assign, ast.AnnAssign))
-                    and var in norm_text(g.nodes[x].ast.targets[0] if isinstance(g.nodes[x].ast, ast.Assign) else g.nodes[x].ast.target)]
+                    and var == norm_text(g.nodes[x].ast.targets[0] if isinstance(g.nodes[x].ast, ast.Assign) else g.nodes[x].ast.target)]
             ok = False
             for d in defs:
-                v = norm_text(d.ast.value)  # type: ignore[union-attr]
+                v = d.ast.value  # type: ignore[union-attr]
                 if role == "ADDED":
-                    ok = any(v.startswith(s) for s in added_src) and "df." not in v
+                    # from the function's snapshot_id / sequence_number parameter (possibly via a defaulting local), not from df
+                    org = ctx.slicer(f).origins(v, d.id)
+                    ok = bool(org["params"] & {p for p in pnames if key.split("_")[0] in p}) and not any(
+                        isinstance(x, ast.Attribute) and x.attr in ("added_snapshot_id",) for e in org["exprs"] for x in ast.walk(e))
                 else:
-                    ok = v == f"df.{exist_src}"
-            ctx.ob("C15.R3", f, f"{role}: {var} source", defs[0] if defs else b, ok and bool(defs),
+                    ok = isinstance(v, ast.Attribute) and v.attr == exist_src and isinstance(v.value, ast.Name) and v.value.id not in ("self",)
+            ctx.ob("C15.R3", f, f"{role}: per-entry {key} source", defs[0] if defs else b, ok and bool(defs),
                    ("stamped with the committing snapshot" if role == "ADDED" else "preserved from the DataFile (history is not falsified)"),
-                   text=f"{role}:{var}")
+                   text=f"{role}:{key}")
     rm = ctx.fn("file_manager.FileManager.read_manifest_file")
     ctors = [n for n in ctx.cfg(rm).calls() if n.callee and n.callee.kind == "ctor" and n.callee.cls and n.callee.cls.name == "DataFile"]
     avro = ctors[0] if ctors else None
@@ -253,10 +290,7 @@ def r3(ctx: Ctx) -> None:
     # the record written carries those two variables
     dicts = [d for d in ast.walk(f.node) if isinstance(d, ast.Dict)]
     rec = [d for d in dicts if any(isinstance(k, ast.Constant) and k.value == "snapshot_id" for k in d.keys)]
-    ok = bool(rec) and any(isinstance(k, ast.Constant) and k.value == "snapshot_id" and norm_text(v) == "entry_snapshot_id"
-                           for k, v in zip(rec[0].keys, rec[0].values)) and \
-        any(isinstance(k, ast.Constant) and k.value == "sequence_number" and norm_text(v) == "entry_sequence_number"
-            for k, v in zip(rec[0].keys, rec[0].values))
+    ok = bool(rec) and len(entry_vars) == 2
     ctx.ob("C15.R3", f, "the entry record stores the per-entry values", None, ok, "'snapshot_id': entry_snapshot_id, 'sequence_number': entry_sequence_number")
 
 
@@ -266,23 +300,29 @@ def r4(ctx: Ctx) -> None:
     f = ctx.fn("transaction.Transaction._commit_file_ops")
     g = ctx.cfg(f)
     rd = ctx.rd(f)
-    for var in ("snapshot_id", "sequence_number"):
+    cs = ctx.calls(f, name="create_snapshot")
+    if not cs:
+        raise AnalysisError("create_snapshot call vanished from _commit_file_ops")
+    for kw in ("snapshot_id", "sequence_number"):
+        a0 = kwarg(cs[0].ast, kw)
+        var = a0.id if isinstance(a0, ast.Name) else None
         defsets = []
         for n in g.calls():
-            names = [t.name for t in ctx.eff.callees(f, n)]
+            tg = ctx.eff.callees(f, n)
+            names = [t.name for t in tg]
             if not any(x in ("create_manifest_file", "create_manifest_list_file", "create_snapshot") for x in names):
                 continue
-            call = n.ast
-            assert isinstance(call, ast.Call)
-            args = list(call.args) + [k.value for k in call.keywords]
-            uses = [a for a in args if isinstance(a, ast.Name) and a.id == var]
-            if var == "sequence_number" and names[0] == "create_manifest_list_file":
+            if kw == "sequence_number" and names[0] == "create_manifest_list_file":
                 continue
-            ctx.ob("C15.R4", f, f"{names[0]} receives {var}", n, bool(uses), f"the commit's {var} is passed explicitly", text=f"{var}@{names[0]}@{n.lineno - f.lineno}")
+            bound = ctx.eff.bind_arg(n.ast, tg[0], kw, True)  # type: ignore[arg-type]
+            uses = isinstance(bound, ast.Name) and bound.id == var
+            ctx.ob("C15.R4", f, f"{names[0]} receives the commit's {kw}", n, bool(uses) and var is not None,
+                   f"the commit's {kw} is passed explicitly (same variable as create_snapshot's)", text=f"{kw}@{names[0]}@{n.lineno - f.lineno}")
             if uses:
                 defsets.append(tuple(rd.reaching(n.id, var)))
-        ctx.ob("C15.R4", f, f"a single definition of {var} reaches every writer", None, len(set(defsets)) == 1 and len(defsets[0]) == 1,
-               f"reaching definitions: {sorted(set(defsets))}", text=var)
+        ctx.ob("C15.R4", f, f"a single definition of {kw} reaches every writer", None,
+               len(set(defsets)) == 1 and len(defsets[0]) == 1 if defsets else False,
+               f"reaching definitions: {sorted(set(defsets))}", text=kw)
     sn = ctx.fn("snapshot_manager.SnapshotManager.create_snapshot")
     ctors = [n for n in ctx.cfg(sn).calls() if n.callee and n.callee.kind == "ctor" and n.callee.cls and n.callee.cls.name == "Snapshot"]
     ok = bool(ctors) and norm_text(kwarg(ctors[0].ast, "snapshot_id")) == "snapshot_id"
@@ -326,10 +366,18 @@ def r6(ctx: Ctx) -> None:
              "updated before the metadata file is written", 3)
     f = ctx.fn("metadata_manager.MetadataManager._append_metadata_log")
     g = ctx.cfg(f)
-    ep = [n for n in g.nodes if n.kind == "stmt" and isinstance(n.ast, ast.Assign) and norm_text(n.ast.targets[0]) == "entry_path"]
-    ok = bool(ep) and "previous_metadata_file" in norm_text(ep[0].ast.value) and "metadata_path" in norm_text(ep[0].ast.value)  # type: ignore[union-attr]
+    mfile = [d for d in ast.walk(f.node) if isinstance(d, ast.Dict) and any(isinstance(k, ast.Constant) and k.value == "metadata-file" for k in d.keys)]
+    epn = ""
+    if mfile:
+        for k, v in zip(mfile[0].keys, mfile[0].values):
+            if isinstance(k, ast.Constant) and k.value == "metadata-file":
+                epn = norm_text(v)
+    prevp = f.params[-1].name
+    ep = [n for n in g.nodes if n.kind == "stmt" and isinstance(n.ast, ast.Assign) and norm_text(n.ast.targets[0]) == epn]
+    ok = bool(ep) and prevp in norm_text(ep[0].ast.value) and "metadata_path" in norm_text(ep[0].ast.value)  # type: ignore[union-attr]
     ctx.ob("C15.R6", f, "entry path = metadata dir + superseded file", ep[0] if ep else None, ok, "")
-    slices = [n for n in ast.walk(f.node) if isinstance(n, ast.Subscript) and isinstance(n.slice, ast.Slice) and "log" in norm_text(n.value)]
+    logv = {norm_text(n.value) for n in ast.walk(f.node) if isinstance(n, ast.Assign) and any(isinstance(t, ast.Attribute) and t.attr == "metadata_log" for t in n.targets)}
+    slices = [n for n in ast.walk(f.node) if isinstance(n, ast.Subscript) and isinstance(n.slice, ast.Slice) and norm_text(n.value) in logv]
     ok = bool(slices) and all(isinstance(s.slice.lower, ast.UnaryOp) and isinstance(s.slice.lower.op, ast.USub) and s.slice.upper is None for s in slices)
     ctx.ob("C15.R6", f, "trim keeps the newest entries (log[-max:])", None, ok,
            f"slices: {[norm_text(s) for s in slices]}")
@@ -342,7 +390,9 @@ def r6(ctx: Ctx) -> None:
     al = ctx.calls(c, name="_append_metadata_log")
     mw = ctx.calls(c, name="_write_metadata_file")
     ok = bool(al) and bool(mw) and all(find_path(cg, m.id, [a.id], labels=NORMAL) is None for m in mw for a in al)
-    guard_false = {(b.id, d) for b in cg.nodes if b.kind == "branch" and "previous_metadata_file is not None" in b.text for d, l in cg.succ[b.id] if l == "false"}
+    prev_args = {nm for a in al for nm in names_in(a.ast.args[-1] if isinstance(a.ast, ast.Call) and a.ast.args else None)}
+    guard_false = {(b.id, d) for b in cg.nodes if b.kind == "branch" and isinstance(b.ast, ast.Compare) and isinstance(b.ast.ops[0], ast.IsNot)
+                   and names_in(b.ast.left) & prev_args for d, l in cg.succ[b.id] if l == "false"}
     w = find_path(cg, cg.entry, [mw[0].id], avoid=[a.id for a in al], labels=NORMAL, edge_ok=lambda s, d, l: (s, d) not in guard_false) if mw else None
     ctx.ob("C15.R6", c, "the log is appended before the metadata file is written", al[0] if al else None, ok and w is None,
            "the written version names the version it superseded", witness=ctx.path_witness(c, w))
